@@ -42,7 +42,7 @@ CONSTANTS
     RealTime,     \* timers fire by the clock (Tick) instead of by TO events
     MaxSerial,    \* exhaustive runs: bound on the number of announcements (CONSTRAINT Bounded)
     MaxNow,       \* exhaustive runs: bound on the clock (0: none; the clock is then left out of the state identity)
-    GenDepth      \* generation: length of the histories printed
+    GenDepth      \* generation: length of the histories printed (0: exhaustive run, no history; < 0: stream every step)
 
 VARIABLES
     serial,       \* iauth_serial
@@ -157,6 +157,12 @@ WEventsOf(i) ==
 WEvents == UNION {WEventsOf(i) : i \in Ids}
 Events == {x[1] : x \in WEvents}
 
+\* the history ghost: kept (GenDepth > 0), not kept (0), or streamed one line per step (GenDepth < 0: very long
+\* histories, one per TLC run; the action has exactly one successor, so the line is printed once per step)
+Record(r) == IF GenDepth > 0 THEN Append(hist, r)
+             ELSE IF GenDepth < 0 /\ PrintT("@@S" \o ToJson(r)) THEN hist
+             ELSE hist
+
 Do(e) ==
     LET x == Effect(e)
         o == VerdictOut(e, x[2])
@@ -167,7 +173,7 @@ Do(e) ==
                                 ELSE IF i \in ended THEN cl[i].ser ELSE old[i]]
        /\ led' = LG!LedStep(led, e, o, TimeoutOn, TRUE)
        /\ now' = now
-       /\ hist' = IF GenDepth = 0 THEN hist ELSE Append(hist, [e |-> e, pn |-> Cardinality(DOMAIN x[1]), pv |-> x[2]])
+       /\ hist' = Record([e |-> e, pn |-> Cardinality(DOMAIN x[1]), pv |-> x[2]])
 
 \* the clock advances by one tick: every pending timer with its deadline in the interval fires, oldest first
 \* (libevent's heap order for equal durations); a request whose gate is open once its timer has fired is accepted
@@ -190,8 +196,7 @@ Tick ==
                       ELSE cl[i]]
           /\ led' = LG!RetireAll(FireLedger(led, order, 1), gone)
           /\ old' = [i \in Ids |-> IF i \in gone THEN cl[i].ser ELSE old[i]]
-          /\ hist' = IF GenDepth = 0 THEN hist
-                     ELSE Append(hist, [e |-> [e |-> "Tick", fire |-> order], pn |-> Cardinality(DOMAIN cl \ gone), pv |-> ""])
+          /\ hist' = Record([e |-> [e |-> "Tick", fire |-> order], pn |-> Cardinality(DOMAIN cl \ gone), pv |-> ""])
     /\ now' = now + 1
     /\ UNCHANGED serial
 
